@@ -295,6 +295,49 @@ func helpersOf(f *ssa.Function) []*ssa.Function {
 	return out
 }
 
+// privateHelpersOf: the helpers of f that nothing outside f (and these helpers) calls — statements
+// that were moved out of f into a function of their own. Shared utilities are not included.
+func privateHelpersOf(f *ssa.Function) []*ssa.Function {
+	saved := regionMode
+	regionMode = true
+	hs := helpersOf(f)
+	regionMode = saved
+	in := map[*ssa.Function]bool{f: true}
+	for _, a := range anonFuncsDeep(f) {
+		in[a] = true
+	}
+	var out []*ssa.Function
+	changed := true
+	for changed {
+		changed = false
+		for _, h := range hs {
+			if in[h] {
+				continue
+			}
+			callers := staticCallersOf(h)
+			ok := len(callers) > 0
+			for _, c := range callers {
+				p := c.Parent()
+				for p != nil && p.Parent() != nil && !in[p] {
+					p = p.Parent()
+				}
+				if !in[p] {
+					ok = false
+				}
+			}
+			if ok {
+				in[h] = true
+				for _, a := range anonFuncsDeep(h) {
+					in[a] = true
+				}
+				out = append(out, h)
+				changed = true
+			}
+		}
+	}
+	return out
+}
+
 func callsMatching(f *ssa.Function, withClosures bool, pred func(name string) bool) []callSite {
 	var out []callSite
 	for _, c := range callsIn(f, withClosures) {
@@ -1095,8 +1138,8 @@ func constBool(c *ssa.Const) (bool, bool) {
 // It returns the first satisfying value.
 func dependsOn(v ssa.Value, pred func(ssa.Value) bool) ssa.Value {
 	seen := map[ssa.Value]bool{}
-	var rec func(v ssa.Value) ssa.Value
-	rec = func(v ssa.Value) ssa.Value {
+	var rec func(v ssa.Value, depth int) ssa.Value
+	rec = func(v ssa.Value, depth int) ssa.Value {
 		if v == nil || seen[v] {
 			return nil
 		}
@@ -1104,12 +1147,57 @@ func dependsOn(v ssa.Value, pred func(ssa.Value) bool) ssa.Value {
 		if pred(v) {
 			return v
 		}
-		// loads from local allocs: follow stores
+		// loads from local allocs: follow stores (also those made by closures sharing the cell)
 		if u, ok := v.(*ssa.UnOp); ok && u.Op == token.MUL {
 			if a := rootAlloc(u.X); a != nil {
 				for _, st := range storesInto(a) {
-					if hit := rec(st.Val); hit != nil {
+					if hit := rec(st.Val, depth); hit != nil {
 						return hit
+					}
+				}
+			}
+			// a captured variable read inside a closure: the cell lives in the enclosing function
+			if fv, ok := u.X.(*ssa.FreeVar); ok {
+				if a := bindingOf(fv); a != nil {
+					if al := rootAlloc(a); al != nil {
+						for _, st := range storesInto(al) {
+							if hit := rec(st.Val, depth); hit != nil {
+								return hit
+							}
+						}
+					} else if hit := rec(a, depth); hit != nil {
+						return hit
+					}
+				}
+			}
+		}
+		if regionMode && depth < 3 {
+			switch x := v.(type) {
+			case *ssa.Parameter:
+				// a helper's parameter: what its callers pass
+				if g := x.Parent(); g != nil && g.Parent() == nil && isTransparent(g, pkgOfFn(g)) {
+					for i, gp := range g.Params {
+						if gp != x {
+							continue
+						}
+						for _, c := range staticCallersOf(g) {
+							if i < len(c.Call.Args) {
+								if hit := rec(c.Call.Args[i], depth+1); hit != nil {
+									return hit
+								}
+							}
+						}
+					}
+				}
+			case *ssa.Call:
+				if g := transparentCallee(x.Parent(), x); g != nil {
+					for _, ri := range instrsWhereOne(g, isReturn) {
+						ret := ri.(*ssa.Return)
+						for i := range ret.Results {
+							if hit := rec(retOperand(ret, i), depth+1); hit != nil {
+								return hit
+							}
+						}
 					}
 				}
 			}
@@ -1122,13 +1210,84 @@ func dependsOn(v ssa.Value, pred func(ssa.Value) bool) ssa.Value {
 			if *op == nil {
 				continue
 			}
-			if hit := rec(*op); hit != nil {
+			if hit := rec(*op, depth); hit != nil {
 				return hit
 			}
 		}
 		return nil
 	}
-	return rec(v)
+	return rec(v, 0)
+}
+
+// bindingOf: the value bound to a closure's free variable where the closure is created.
+func bindingOf(fv *ssa.FreeVar) ssa.Value {
+	fn := fv.Parent()
+	if fn == nil || fn.Parent() == nil {
+		return nil
+	}
+	idx := -1
+	for i, x := range fn.FreeVars {
+		if x == fv {
+			idx = i
+		}
+	}
+	if idx < 0 {
+		return nil
+	}
+	for _, b := range fn.Parent().Blocks {
+		for _, in := range b.Instrs {
+			if mc, ok := in.(*ssa.MakeClosure); ok && mc.Fn == ssa.Value(fn) && idx < len(mc.Bindings) {
+				return mc.Bindings[idx]
+			}
+		}
+	}
+	return nil
+}
+
+// staticCallersOf: the static call sites of g in its own package (computed once per package).
+var staticCallerIndex = map[*ssa.Package]map[*ssa.Function][]*ssa.Call{}
+
+func staticCallersOf(g *ssa.Function) []*ssa.Call {
+	pkg := pkgOfFn(g)
+	if pkg == nil {
+		return nil
+	}
+	idx, ok := staticCallerIndex[pkg]
+	if !ok {
+		idx = map[*ssa.Function][]*ssa.Call{}
+		var scan func(f *ssa.Function)
+		scan = func(f *ssa.Function) {
+			for _, b := range f.Blocks {
+				for _, in := range b.Instrs {
+					if c, ok := in.(*ssa.Call); ok {
+						if sc := c.Call.StaticCallee(); sc != nil {
+							idx[sc] = append(idx[sc], c)
+						}
+					}
+				}
+			}
+			for _, a := range f.AnonFuncs {
+				scan(a)
+			}
+		}
+		for _, m := range pkg.Members {
+			switch x := m.(type) {
+			case *ssa.Function:
+				scan(x)
+			case *ssa.Type:
+				for _, t := range []types.Type{x.Type(), types.NewPointer(x.Type())} {
+					ms := pkg.Prog.MethodSets.MethodSet(t)
+					for i := 0; i < ms.Len(); i++ {
+						if f := pkg.Prog.MethodValue(ms.At(i)); f != nil && f.Pkg == pkg {
+							scan(f)
+						}
+					}
+				}
+			}
+		}
+		staticCallerIndex[pkg] = idx
+	}
+	return idx[g]
 }
 
 // isFieldLoad: v is a load of field named owner.field (through FieldAddr or Field).
@@ -1261,6 +1420,24 @@ func storesInto(a *ssa.Alloc) []*ssa.Store {
 		}
 	}
 	walk(a)
+	// stores made by function literals that capture the variable
+	if refs := a.Referrers(); refs != nil {
+		for _, r := range *refs {
+			mc, ok := r.(*ssa.MakeClosure)
+			if !ok {
+				continue
+			}
+			fn, _ := mc.Fn.(*ssa.Function)
+			if fn == nil {
+				continue
+			}
+			for i, bnd := range mc.Bindings {
+				if bnd == ssa.Value(a) && i < len(fn.FreeVars) {
+					walk(fn.FreeVars[i])
+				}
+			}
+		}
+	}
 	return out
 }
 
